@@ -91,6 +91,7 @@ def intake(a):
 
 
 def run(a):
+    T = {'tag': getattr(a, 'tag', '') or ''}     # (several scratch runs side by side: one pair of copies each)
     ids = a.ids or sorted(os.listdir(os.path.join(HERE, 'seeded')))
     rc, st = sh('git -C /repo status --porcelain -- streamz')
     if st.strip() and not a.scratch:
@@ -106,10 +107,10 @@ def run(a):
         env = None
         if a.scratch:
             # a scratch copy of /repo's HEAD outside /repo and /verif (used while something else is busy with /repo)
-            sh('rm -rf /tmp/sz_seeded_mut /tmp/sz_seeded_clean; mkdir -p /tmp/sz_seeded_mut /tmp/sz_seeded_clean; '
-               'git -C /repo archive HEAD | tar -x -C /tmp/sz_seeded_mut; git -C /repo archive HEAD | tar -x -C /tmp/sz_seeded_clean')
-            rc, out = sh('patch -p1 -s < %s' % os.path.join(d, 'patch.diff'), cwd='/tmp/sz_seeded_mut')
-            env = dict(os.environ, STREAMZ_SRC='/tmp/sz_seeded_mut')
+            sh(('rm -rf /tmp/sz_seeded_mut%(tag)s /tmp/sz_seeded_clean%(tag)s; mkdir -p /tmp/sz_seeded_mut%(tag)s /tmp/sz_seeded_clean%(tag)s; '
+                'git -C /repo archive HEAD | tar -x -C /tmp/sz_seeded_mut%(tag)s; git -C /repo archive HEAD | tar -x -C /tmp/sz_seeded_clean%(tag)s') % T)
+            rc, out = sh('patch -p1 -s < %s' % os.path.join(d, 'patch.diff'), cwd='/tmp/sz_seeded_mut%(tag)s' % T)
+            env = dict(os.environ, STREAMZ_SRC='/tmp/sz_seeded_mut%(tag)s' % T)
         else:
             rc, out = sh('git -C /repo apply %s' % os.path.join(d, 'patch.diff'))
         if rc != 0:
@@ -137,7 +138,7 @@ def run(a):
             c = meta['checks'].get(p) or {}
             if c.get('verdict') == 'CAUGHT' and c.get('replay'):
                 rc, out = sh('timeout 300 %s check.py --replay %s --quiet' % (PY, c['replay']), cwd=HERE,
-                             env=dict(os.environ, STREAMZ_SRC='/tmp/sz_seeded_clean') if a.scratch else None)
+                             env=dict(os.environ, STREAMZ_SRC='/tmp/sz_seeded_clean%(tag)s' % T) if a.scratch else None)
                 c['replay_on_unchanged_tree'] = 'NOT-REPRODUCED' if (rc == 0 and 'NOT-REPRODUCED' in out) else 'REPRODUCED (false alarm!)' if 'REPRODUCED' in out else 'error rc=%s' % rc
                 if c['replay_on_unchanged_tree'] != 'NOT-REPRODUCED':
                     print('   !!', i, p, c['replay_on_unchanged_tree'], out[-300:])
@@ -160,6 +161,7 @@ def main():
     r.add_argument('--budget', default='30')
     r.add_argument('--props')
     r.add_argument('--scratch', action='store_true')
+    r.add_argument('--tag', default='')
     a = ap.parse_args()
     if a.cmd == 'intake':
         return intake(a)
